@@ -462,35 +462,7 @@ Proof.
 Qed.
 
 Section EvalProofs.
-  Variables (Ctx Node Val : Type).
-
-  (* PARTIAL: [visit] (the memoising DFS with cycle detection and the expression evaluator) is not
-     modelled; what is assumed of it is the premise [visit_comm]: visiting two different nodes in
-     either order fails in both orders or reaches the same context. *)
-  Theorem evalReferences_nodes_perm_partial (referenced : Node -> bool) (visit : Ctx -> Node -> option Ctx)
-    (visit_comm : forall a b c, bindo (visit c a) (fun c' => visit c' b) = bindo (visit c b) (fun c' => visit c' a))
-    (nodes nodes' : list (bytes * Node)) :
-    Permutation nodes nodes' ->
-    forall c, evalReferences_nodes Ctx Node referenced visit nodes c = evalReferences_nodes Ctx Node referenced visit nodes' c.
-  Proof.
-    intros P. unfold evalReferences_nodes. apply foldM_perm; [exact P|].
-    intros a b c _ _. destruct (referenced (snd a)) eqn:Ra, (referenced (snd b)) eqn:Rb; simpl; rewrite ?Ra, ?Rb.
-    - apply visit_comm.
-    - destruct (visit c (snd a)); simpl; rewrite ?Rb; reflexivity.
-    - destruct (visit c (snd b)); simpl; rewrite ?Ra; reflexivity.
-    - reflexivity.
-  Qed.
-
-  Theorem EvalOptions_metaBlocks_perm_partial (forEachFile : Ctx -> bytes * Node -> option Ctx)
-    (step_comm : forall a b c, fst a <> fst b ->
-       bindo (forEachFile c a) (fun c' => forEachFile c' b) = bindo (forEachFile c b) (fun c' => forEachFile c' a))
-    (m m' : list (bytes * Node)) :
-    Permutation m m' -> NoDup (map fst m) ->
-    forall c, EvalOptions_metaBlocks Ctx Node forEachFile m c = EvalOptions_metaBlocks Ctx Node forEachFile m' c.
-  Proof.
-    intros P H. unfold EvalOptions_metaBlocks. apply foldM_perm; [exact P|].
-    intros a b c Ha Hb. destruct (NoDup_keys_in fst _ a b H Ha Hb) as [->|N]; [reflexivity|]. apply step_comm, N.
-  Qed.
+  Variables (Node Val : Type).
 
   Variable blockVal : bytes -> Node -> option Val.
 
@@ -557,106 +529,34 @@ Section EvalProofs.
   Qed.
 End EvalProofs.
 
-(** ** State.EvalOptions #1: the order of the files decides whether a cross-file local resolves *)
+(** ** State.EvalOptions #1 (fixed): files are evaluated in the order of their sorted names *)
 Definition ex_a : bytes := [97%N].
 Definition ex_b : bytes := [98%N].
 Definition ex_x : bytes := [120%N].
 Definition ex_y : bytes := [121%N].
 
-Theorem EvalOptions_files_order_matters :
-  exists files files' : list hclfile,
-    Permutation files files' /\ NoDup (map fst files) /\
-    EvalOptions_files files <> EvalOptions_files files'.
-Proof.
-  exists [(ex_a, ([ex_x], [])); (ex_b, ([ex_y], [ex_x]))], [(ex_b, ([ex_y], [ex_x])); (ex_a, ([ex_x], []))].
-  split; [apply perm_swap|]. split; [|vm_compute; discriminate].
-  constructor; [simpl; intros [E|[]]; discriminate|]. constructor; [intros []|constructor].
-Qed.
-
-Lemma evalfile_noref l : Forall (fun f : hclfile => snd (snd f) = []) l ->
-  forall ctx, exists ctx', foldM evalfile_step l ctx = Some ctx'.
-Proof.
-  induction 1 as [|f l Hf _ IH]; intros ctx; simpl; [eauto|].
-  unfold evalfile_step. rewrite Hf. simpl. apply IH.
-Qed.
-
-(* exact characterisation proved here: without references between the locals of different files
-   the result (sorted file names, no error) is the same for every order *)
-Theorem EvalOptions_files_perm_except (files files' : list hclfile) :
+Theorem EvalOptions_files_perm (files files' : list hclfile) :
   Permutation files files' -> NoDup (map fst files) ->
-  Forall (fun f : hclfile => snd (snd f) = []) files ->
   EvalOptions_files files = EvalOptions_files files'.
-Proof.
-  intros P H F. unfold EvalOptions_files.
-  destruct (evalfile_noref files F []) as [c ->].
-  destruct (evalfile_noref files' (Permutation_Forall P F) []) as [c' ->].
-  f_equal. apply bsort_eq; [apply Permutation_map, P|]. rewrite map_id. exact H.
-Qed.
+Proof. intros P H. unfold EvalOptions_files. rewrite (bsort_eq fst _ _ P H). reflexivity. Qed.
 
 (** * schemahcl/extension.go *)
 
-Lemma SetAttr_fresh {V : Type} (a : bytes * V) attrs :
-  ~ In (fst a) (map fst attrs) -> SetAttr a attrs = attrs ++ [a].
+Lemma bmem_perm x (l l' : list bytes) : Permutation l l' -> bmem x l = bmem x l'.
+Proof. apply existsb_perm. Qed.
+
+(* Resource.as (fixed): existingAttrs / existingChildren are only looked up *)
+Theorem as_extra_attrs_perm {V : Type} (rattrs : list (bytes * V)) : forall (ex ex' : list bytes) extra,
+  Permutation ex ex' -> as_extra_attrs rattrs ex extra = as_extra_attrs rattrs ex' extra.
 Proof.
-  induction attrs as [|b r IH]; simpl; intros H; [reflexivity|].
-  destruct (bytes_eqb (fst a) (fst b)) eqn:E.
-  - apply bytes_eqb_eq in E. exfalso. apply H. left. congruence.
-  - f_equal. apply IH. intros Hin. apply H. right. exact Hin.
+  induction rattrs as [|a r IH]; intros ex ex' extra P; simpl; [reflexivity|].
+  rewrite (bmem_perm _ _ _ P). destruct (bmem (fst a) ex'); apply IH; [apply filter_perm|]; exact P.
 Qed.
 
-(* Resource.as #1: the remainder lists the unknown attributes in iteration order, verbatim *)
-Theorem as_extra_attrs_is_iteration_order {V : Type} (l : list (bytes * V)) : forall extra,
-  NoDup (map fst (extra ++ l)) -> as_extra_attrs l extra = extra ++ l.
+Theorem as_extra_children_perm {C : Type} (ctype : C -> bytes) children (ex ex' : list bytes) extra :
+  Permutation ex ex' -> as_extra_children ctype children ex extra = as_extra_children ctype children ex' extra.
 Proof.
-  unfold as_extra_attrs. induction l as [|a l IH]; intros extra H; simpl; [rewrite app_nil_r; reflexivity|].
-  rewrite SetAttr_fresh.
-  - rewrite IH; rewrite <- app_assoc; [reflexivity|exact H].
-  - rewrite map_app in H. simpl in H. apply NoDup_remove_2 in H. intros Hin. apply H. apply in_or_app. left. exact Hin.
-Qed.
-
-Theorem as_extra_attrs_perm_except {V : Type} (l l' extra : list (bytes * V)) :
-  Permutation l l' -> NoDup (map fst (extra ++ l)) ->
-  Permutation (as_extra_attrs l extra) (as_extra_attrs l' extra)
-  /\ byKeys (as_extra_attrs l extra) = byKeys (as_extra_attrs l' extra).
-Proof.
-  intros P H.
-  assert (H' : NoDup (map fst (extra ++ l'))).
-  { eapply NoDup_map_perm; [apply Permutation_app_head; exact P|exact H]. }
-  rewrite !as_extra_attrs_is_iteration_order by assumption.
-  split; [apply Permutation_app_head, P|]. apply byKeys_perm; [apply Permutation_app_head, P|exact H].
-Qed.
-
-Theorem as_extra_attrs_order_leaks :
-  exists l l' : list (bytes * nat),
-    Permutation l l' /\ NoDup (map fst l) /\ as_extra_attrs l [] <> as_extra_attrs l' [].
-Proof.
-  exists [(ex_a, 1); (ex_b, 2)], [(ex_b, 2); (ex_a, 1)].
-  split; [apply perm_swap|]. split; [|vm_compute; discriminate].
-  constructor; [simpl; intros [E|[]]; discriminate|]. constructor; [intros []|constructor].
-Qed.
-
-Lemma as_extra_children_eq {C : Type} (ctype : C -> bytes) children (l : list (bytes * unit)) : forall extra,
-  as_extra_children ctype children l extra
-  = extra ++ flat_map (fun t => childrenOfType ctype children [fst t]) l.
-Proof.
-  unfold as_extra_children. induction l as [|t l IH]; intros extra; simpl; [rewrite app_nil_r; reflexivity|].
-  rewrite IH, <- app_assoc. reflexivity.
-Qed.
-
-(* Resource.as #2: blocks of unknown types are appended type by type, in iteration order *)
-Theorem as_extra_children_perm_except {C : Type} (ctype : C -> bytes) children (l l' : list (bytes * unit)) extra :
-  Permutation l l' ->
-  Permutation (as_extra_children ctype children l extra) (as_extra_children ctype children l' extra).
-Proof. intros P. rewrite !as_extra_children_eq. apply Permutation_app_head, flat_map_perm, P. Qed.
-
-Theorem as_extra_children_order_leaks :
-  exists (children : list bytes) (l l' : list (bytes * unit)),
-    Permutation l l' /\ NoDup (map fst l) /\
-    as_extra_children (fun c => c) children l [] <> as_extra_children (fun c => c) children l' [].
-Proof.
-  exists [ex_a; ex_b], [(ex_a, tt); (ex_b, tt)], [(ex_b, tt); (ex_a, tt)].
-  split; [apply perm_swap|]. split; [|vm_compute; discriminate].
-  constructor; [simpl; intros [E|[]]; discriminate|]. constructor; [intros []|constructor].
+  intros P. unfold as_extra_children. f_equal. apply filter_ext. intros c. apply bmem_perm, P.
 Qed.
 
 (* registry.implementers feeds childrenOfType only: which children are selected, and in which
@@ -689,32 +589,23 @@ Proof.
   apply childrenOfType_perm, Permutation_map, filter_perm, P.
 Qed.
 
-(* registry.lookup: the first entry of the same Go type *)
-Theorem lookup_perm_except {T : Type} (same : T -> bool) (r r' : list (bytes * T)) :
-  Permutation r r' ->
-  (forall a b, In a r -> In b r -> same (snd a) = true -> same (snd b) = true -> a = b) ->
-  lookup same r = lookup same r'.
+(* registry.lookup (fixed): names in registration order, the map is only looked up *)
+Lemma bassoc_perm {T : Type} k (r r' : list (bytes * T)) :
+  Permutation r r' -> NoDup (map fst r) -> bassoc k r = bassoc k r'.
 Proof.
-  intros P U. unfold lookup.
-  destruct (find (fun e => same (snd e)) r) as [e|] eqn:E, (find (fun e => same (snd e)) r') as [e'|] eqn:E'; simpl.
-  - apply find_some in E as [He Se]. apply find_some in E' as [He' Se'].
-    f_equal. f_equal. apply U; try assumption. eapply Permutation_in; [apply Permutation_sym; exact P|exact He'].
-  - apply find_some in E as [He Se]. pose proof (find_none _ _ E' e (Permutation_in _ P He)) as F.
-    simpl in F. congruence.
-  - apply find_some in E' as [He' Se'].
-    pose proof (find_none _ _ E e' (Permutation_in _ (Permutation_sym P) He')) as F. simpl in F. congruence.
+  induction 1 as [|[k' v] l l' P IH|[k1 v1] [k2 v2] l|l l1 l2 P1 IH1 P2 IH2]; simpl; intros H.
   - reflexivity.
+  - inversion H; subst. destruct (bytes_eqb k k'); [reflexivity|auto].
+  - destruct (bytes_eqb k k1) eqn:E1, (bytes_eqb k k2) eqn:E2; try reflexivity.
+    apply bytes_eqb_eq in E1, E2. subst. inversion H as [|? ? Hn _]; subst. exfalso. apply Hn. left. reflexivity.
+  - rewrite IH1 by exact H. apply IH2. eapply NoDup_map_perm; eassumption.
 Qed.
 
-(* two names registered for one Go type -- as sqlspec does: "view"/"materialized" -> *View,
-   "function"/"procedure" -> *Func *)
-Theorem lookup_order_matters :
-  exists r r' : list (bytes * nat),
-    Permutation r r' /\ NoDup (map fst r) /\ lookup (Nat.eqb 7) r <> lookup (Nat.eqb 7) r'.
+Theorem lookup_perm {T : Type} (same : T -> bool) (names : list bytes) (r r' : list (bytes * T)) :
+  Permutation r r' -> NoDup (map fst r) -> lookup same names r = lookup same names r'.
 Proof.
-  exists [(ex_a, 7); (ex_b, 7)], [(ex_b, 7); (ex_a, 7)].
-  split; [apply perm_swap|]. split; [|vm_compute; discriminate].
-  constructor; [simpl; intros [E|[]]; discriminate|]. constructor; [intros []|constructor].
+  intros P H. unfold lookup. induction names as [|k ks IH]; simpl; [reflexivity|].
+  rewrite (bassoc_perm k _ _ P H). rewrite IH. reflexivity.
 Qed.
 
 (** * sql/internal/specutil *)
